@@ -13,8 +13,7 @@ for d in seeded/*/; do
 done
 tools/verify_seed.sh $OUT $M $DEST | tail -2
 [ -d seeded/$DEST ] || exit 0
-RES=$(DEV=${FULL:+}${FULL:-1} tools/try_seed.sh $DEST $P "$@")
-[ -n "${FULL:-}" ] && RES=$(DEV= tools/try_seed.sh $DEST $P "$@")
+if [ -n "${FULL:-}" ]; then RES=$(DEV= tools/try_seed.sh $DEST $P "$@"); else RES=$(DEV=1 tools/try_seed.sh $DEST $P "$@"); fi
 echo "$RES"
 python3 - "$P" "$DEST" "$RES" <<'PY'
 import json,sys,re,os
